@@ -208,7 +208,17 @@ def gen_gated(rng: random.Random, *, name: str = "g", n_blocks: tuple[int, int] 
                 table[0] = not table[0]
             g = {"k": "ifelse", "name": f"{P}g{K}", "params": [{"n": key}], "t": a, "f": ("END" if to_end else b), "table": table, "open": openness(io)}
             nodes.append(g)
-            nodes.append(fn(a, pick(1), [ra]))
+            extra = []
+            r_ = rng.random()
+            if r_ < 0.2:
+                # the gate's ordering signal consumed by a target as a regular input: gate and
+                # target are then joined by a data edge instead of a control edge
+                g["emit"] = [f"{P}e{K}"]
+                extra = [f"{P}e{K}"]
+            nodes.append(fn(a, pick(1) + extra, [ra]))
+            if r_ >= 0.2 and r_ < 0.35:
+                g["emit"] = [f"{P}e{K}"]
+                nodes[-1]["wait"] = [f"{P}e{K}"]
             if not to_end:
                 nodes.append(fn(b, pick(1), [rb]))
             if same or to_end:
@@ -290,3 +300,33 @@ def gated_inputs(rng: random.Random, spec: dict) -> dict:
     for s in spec["selectors"]:
         d[s] = rng.randint(0, 11)
     return d
+
+
+def with_explicit_edges(spec: dict) -> dict:
+    """Same wiring declared through Graph(edges=...): one edge per (producer, consumer)
+    pair, plus a value-less edge from every gate to each of its targets (which then are
+    ordering edges and take the place of the control edges)."""
+    from hgmon import ref
+
+    s = copy.deepcopy(spec)
+    prod = ref.producers(s)
+    edges = []
+    for ns in s["nodes"]:
+        me = ref.node_name(ns)
+        for _, e in ref.node_inputs(ns):
+            for p in prod.get(e, []):
+                pair = [ref.node_name(p), me]
+                if pair not in edges and pair[0] != pair[1]:
+                    edges.append(pair)
+        for w in ns.get("wait", []) if ns["k"] != "sub" else []:
+            for p in prod.get(w, []):
+                pair = [ref.node_name(p), me]
+                if pair not in edges and pair[0] != pair[1]:
+                    edges.append(pair)
+    for ns in s["nodes"]:
+        for t in ref.gate_targets(ns):
+            pair = [ref.node_name(ns), t]
+            if pair not in edges:
+                edges.append(pair)
+    s["edges"] = edges
+    return s
